@@ -21,7 +21,8 @@ ASSUMPTIONS = [
 
 DEFAULT_BLOCK = 96
 MAXPAD = 2 * DEFAULT_BLOCK + 8
-BLOCKS = list(range(1, 2 * DEFAULT_BLOCK + 1)) + [255, 256, 4096, 10 ** 6]
+BLOCKS = list(range(1, 2 * DEFAULT_BLOCK + 1)) + [255, 256, 4096, 10 ** 6,
+                                                    2 ** 31 - 1, 2 ** 63 - 1]
 
 
 def pad_header(data, span, k):
@@ -440,7 +441,7 @@ def checks():
                  'every header, buffered readers with 16..4096-byte buffers, '
                  'a real file and streams positioned past 1..4096 leading '
                  'bytes, every block size 1..192, 255, 256, '
-                 '4096, 10^6, and a diagonal of padding x block size; '
+                 '4096, 10^6, 2^31 - 1, 2^63 - 1, and a diagonal of padding x block size; '
                  'records must equal the unpadded/default-block records '
                  '(+ the pad option) and the reference reading; every file '
                  'is non-trivial (thousands of reader runs each, counted as '
@@ -458,7 +459,7 @@ def checks():
                  'of the first header, loaded into the object model, '
                  're-serialised and analysed for statistics, once in this '
                  'interpreter and once each in children started with '
-                 'python -O and python -bb: the digests of all results must '
+                 'python -O, python -bb and with DEBUG logging on: the digests must '
                  'be identical (nothing may hang on an assert statement '
                  'being executed or on comparing bytes with str); every '
                  'comparison is non-trivial',
